@@ -414,6 +414,7 @@ def expected_request(spec):
     elif kind == "stream_err":
         out["body"] = ("chunks", tuple(payload))
         out["post_body_error"] = (b"error",)
+        out["ended"] = None          # whether the verb is still run after the client aborted is not the codec's business
     return out
 
 
@@ -449,6 +450,8 @@ def observed_request(spec, rec):
             out["post_body_error"] = ev[1]
     if order and order[0] != "args":
         out["args"] = ("not-first", out["args"])
+    if kind == "stream_err":
+        out["ended"] = None
     if kind == "none":
         out["body"] = None if not chunks else ("unexpected", tuple(chunks))
     elif kind == "body" and ver < 3:
@@ -821,22 +824,20 @@ def run_push(t, data, msglen, ch, mode):
 # pull targets: the client-side response readers pulling from a client stream medium, and the
 # real server media pulling from a pipe / socket object; the explorer decides what every read returns
 
-class ScriptedClientMedium(smedium.SmartClientStreamMedium):
-    """A SmartClientStreamMedium whose transport is the explorer (like SmartSimplePipesClientMedium
-    with the pipe replaced)."""
-
+class _ClientPipeOut:
     def __init__(self, hx):
-        smedium.SmartClientStreamMedium.__init__(self, "fake://c/")
         self.hx = hx
 
-    def _accept_bytes(self, b):
-        self.hx.sent.append(b)
+    def write(self, b):
+        self.hx.sent.append(bytes(b))
 
-    def _flush(self):
+    def flush(self):
         pass
 
-    def _read_bytes(self, count):
-        return self.hx.read(count)
+
+def scripted_client_medium(hx):
+    """The real SmartSimplePipesClientMedium; its readable pipe is the explorer (_In.read -> hx.read)."""
+    return smedium.SmartSimplePipesClientMedium(_In(hx), _ClientPipeOut(hx), "fake://c/")
 
 
 class ClientPullTarget:
@@ -891,7 +892,7 @@ class ClientPullTarget:
         self.sizes = []
         self.sent = []
         self.phase = "start"
-        self.med = med = ScriptedClientMedium(self)
+        self.med = med = scripted_client_medium(self)
         req = med.get_request()
         if self.ver == 3:
             protocol.ProtocolThreeRequester(req).call(b"vf.some-verb")
@@ -1387,6 +1388,7 @@ def explore_item(item, acc, limit=None):
     acc.count("transitions", s.transitions)
     acc.count("items")
     acc.count("items:%s:%s" % (item[0], item[-1]))
+    acc.count("execs:%s:%s" % (item[0], item[-1]), s.execs)
     acc.count("bytes", n)
     if s.capped:
         acc.count("capped")
